@@ -100,14 +100,19 @@ def main():
     thorough = run.tier == "thorough"
     vh = vlib.build_vh("merge")
     with vlib.Scratch("verif-c24-") as sc:
-        # ---- M: the documented rule
+        # ---- M (the documented rule) and the case generators: four independent TLC runs, started together
         if thorough:
             mcs = [("MergeMC_pairs(7 slots, <=3 blocks)", _cfg("MergeMC_pairs.cfg")), ("MergeMC_grid", _cfg("MergeMC_grid.cfg"))]
         else:
             mcs = [("MergeMC_pairs(7 slots, <=2 blocks)", _cfg("MergeMC_pairs.cfg", **{"MaxBlocks = 3": "MaxBlocks = 2"})),
                    ("MergeMC_grid(quick sets)", _cfg("MergeMC_grid.cfg", **{"<- GridSrc": "<- GridSrcQ", "<- GridDst": "<- GridDstQ"}))]
-        for label, cfg in mcs:
-            r = vlib.tlc("merge", "MergeMC", cfg, coverage=True, scratch=sc, timeout=1200)
+        pcfg = _cfg("MergeGen_pairs.cfg", **({"Slots = {1, 3, 4, 5, 6, 7}": "Slots = {1, 2, 3, 4, 5, 6, 7}"} if thorough else {}))
+        jobs = [lambda l=l, c=c: vlib.tlc("merge", "MergeMC", c, coverage=True, timeout=1200, workers=4) for l, c in mcs]
+        jobs.append(lambda: vlib.tlc("merge", "MergeGen", pcfg, timeout=1200, workers=4))
+        jobs.append(lambda: vlib.tlc("merge", "MergeGen", "MergeGen_grid.cfg" if thorough else "MergeGen_gridQ.cfg", timeout=1200, workers=4))
+        with ThreadPoolExecutor(len(jobs)) as ex:
+            res = [f.result() for f in [ex.submit(j) for j in jobs]]
+        for (label, _), r in zip(mcs, res[:2]):
             vlib.expect_tlc_ok(r, label)
             if r.violation:
                 raise vlib.MachineryError("Merge rule violates %s (spec error, not a code verdict)" % r.violation)
@@ -116,14 +121,12 @@ def main():
 
         # ---- F: generated cases
         gens = []
-        pcfg = _cfg("MergeGen_pairs.cfg", **({"Slots = {1, 3, 4, 5, 6, 7}": "Slots = {1, 2, 3, 4, 5, 6, 7}"} if thorough else {}))
-        g = vlib.tlc("merge", "MergeGen", pcfg, scratch=sc, timeout=1200)
+        g, g2 = res[2], res[3]
         vlib.expect_tlc_ok(g, "MergeGen_pairs")
         vlib.require(len(g.traces) == (64 * 64 * 4 if thorough else 42 * 42 * 4), "pairs generator: %d cases" % len(g.traces))
         # (quick executes every pair with <= 2 blocks per day and a seeded sample of the 3-block pairs, thorough all)
         run.add_tlc(g, "MergeGen_pairs")
         gens.append(("pairs", g.traces))
-        g2 = vlib.tlc("merge", "MergeGen", "MergeGen_grid.cfg" if thorough else "MergeGen_gridQ.cfg", scratch=sc, timeout=1200)
         vlib.expect_tlc_ok(g2, "MergeGen_grid")
         vlib.require(len(g2.traces) >= 3000, "grid generator: %d cases" % len(g2.traces))
         run.add_tlc(g2, "MergeGen_grid")
@@ -168,8 +171,6 @@ def main():
 
         # ---- negative controls
         vlib.require(ctl is not None, "no agreeing rebuild case available for the negative control")
-        base, _ = _replay(vh, [ctl], run.seed, sc, "ctl0")
-        vlib.require(not base, "negative control base case does not agree")
         muts = []
         c1 = json.loads(json.dumps(ctl)); b = c1["steps"][0]["exp"]["dst"][0]["blocks"][0]; b["p"] = "S" if b["p"] == "D" else "D"
         muts.append(("payload origin of one block flipped", c1))
@@ -178,9 +179,12 @@ def main():
         muts.append(("rebuilt counted as copied", c3))
         c4 = json.loads(json.dumps(ctl)); c4["steps"][0]["exp"]["sum"]["byDst"] += 1; muts.append(("conflict count + 1", c4))
         c5 = json.loads(json.dumps(ctl)); c5["steps"][1]["exp"]["dst"][0]["blocks"].pop(); muts.append(("second merge expected to change the day", c5))
+        # the corrupted expectations differ from each other, so each failure is attributed by its expectation
+        fails, _ = _replay(vh, [ctl] + [c for _, c in muts], run.seed, sc, "ctl")
+        rejected = {json.dumps(f["case"]["steps"], sort_keys=True) for f in fails}
+        vlib.require(json.dumps(ctl["steps"], sort_keys=True) not in rejected, "negative control base case does not agree")
         for name, c in muts:
-            fails, _ = _replay(vh, [c], run.seed, sc, "ctl")
-            vlib.require(len(fails) == 1, "negative control: corrupted expectation (%s) was accepted" % name)
+            vlib.require(json.dumps(c["steps"], sort_keys=True) in rejected, "negative control: corrupted expectation (%s) was accepted" % name)
         run.cov["negative_control"] = "5 corrupted expectations rejected: " + "; ".join(n for n, _ in muts)
     run.cov["rule"] = ("distinct = distinct (source DB, destination DB, selection, overwrite, dry-run) cases; every case = 2 consecutive "
                        "MergeDatabases calls on freshly built databases; evaluations = merges executed and compared")
